@@ -59,6 +59,15 @@ Theorem C17_synthesized_forms_status :
 Proof. exact synthesized_forms_status. Qed.
 Print Assumptions C17_synthesized_forms_status.
 
+(* FComponent.replace: either it keeps the positioned copy, or a replacement field that a macro built without a
+   position stays unpositioned and reports line 1 (finding C17-macro-fstring-field-line-1; on the current tree the
+   second alternative computes) *)
+Theorem C17_fcomponent_replace_status :
+  fcomponent_replace_discards = false
+  \/ (forall o, emits pos_attrs (fcomponent_replace o (Form None [])) 1).
+Proof. exact fcomponent_replace_status. Qed.
+Print Assumptions C17_fcomponent_replace_status.
+
 (* the premise `positioned` matters: an unpositioned model reports line 1 *)
 Example C17_unpositioned_reports_line_1 : emits pos_attrs (Form None []) 1.
 Proof. exact unpositioned_model_reports_line_1. Qed.
